@@ -66,6 +66,15 @@ Router-hook dimension (top-level RuleRouter shape): a ReversibleRuleRouter subcl
 under /mnt (new_rule), edits the matcher in place (in_place), returns a NEW Rule with a wrapped callable target (wrap_target), or
 whose get_target_delegate resolves opaque CallToken targets (gtd); nested routers use the same class; the reference router applies
 the same transformation, and reverse_url on the hooked router must route back.
+
+  M10 PathMatches.reverse wrapped in functools.lru_cache (arguments compared by ==/hash, result depends on str(arg))
+       -> caught at seeds 1, 2, 3 after reverse calls became small histories on one router (C31.reverse_not_matching_own_rule:
+          reverse_url(name, 1.0) after reverse_url(name, 1) returned "/1"); MISSED before: one str/int argument tuple per call.
+          replays/C31/reverse-equal-args-different-text.json pins it.
+
+Reverse histories (reuse dimension): up to 4 reverse_url calls per router, 1-3 in a row on the same rule, with argument kinds int, float
+with integral value, bool, str, bytes; half of the confusable runs use "twins" (1 / 1.0 / True, 2 / 2.0, 0 / 0.0 / False) that are equal
+and hash alike but print differently.  Each call is judged on its own: captures == bytes as UTF-8 or str(arg).
 """
 import json
 import re
@@ -290,6 +299,28 @@ def mutate(draw, path):
 ARG_ALPHA = "ab1 ?#%&+é€._~-=:@!$'()*,;"
 
 
+# reverse_url converts every non-str/bytes argument with str(): equal-but-differently-printed values (2 / 2.0 / True / "2" / b"2")
+# must each give their own path, also when they follow each other on the same router
+CONFUSABLE = [1, 1.0, True, "1", b"1", 2, 2.0, "2", b"2", 0, 0.0, False, "0", "True", "1.0", 10, 10.0, "\u00e9", b"\xc3\xa9"]
+CONFUSABLE_NUM = [1, "1", b"1", 2, "2", b"2", 10, "10", "01", 1, 0, "0"]
+
+
+EQUIV = [[1, 1.0, True], [2, 2.0], [0, 0.0, False], [10, 10.0], [1.0, 1, True], [True, 1]]  # == and same hash, different str()
+
+
+def text_of(a):
+    """The text reverse_url is documented to substitute: bytes as they are (UTF-8), everything else via str()."""
+    return a.decode("utf-8") if isinstance(a, bytes) else str(a)
+
+
+def conf_arg_s(key):
+    if key == "num":
+        return st.sampled_from(CONFUSABLE_NUM)
+    if key == "low":
+        return st.sampled_from(["a", b"a", "b", b"b", "", b""])
+    return st.sampled_from(CONFUSABLE)
+
+
 def arg_s(key):
     if key == "seg":
         return st.text(alphabet=ARG_ALPHA, min_size=1, max_size=6)
@@ -337,15 +368,26 @@ def case_s(draw):
     case["requests"] = reqs
     revs = []
     named = [i for i, (nd, rev) in enumerate(leaves) if rev and ((nd[0] == "leaf" and nd[3]) or nd[0] == "call")]
-    for _ in range(3):
-        if not named:
-            break
+    while named and len(revs) < 4:
         i = draw(st.sampled_from(named))
         nd = leaves[i][0]
         n_any = sum(1 for p in nd[1] if p[0] == "grp" and p[1] == "any")
-        args = [draw(arg_s("seg0" if (p[1] == "any" and n_any >= 2) else p[1])) for p in nd[1] if p[0] == "grp"]
-        args += [7] if any(p[0] == "optnum" for p in nd[1]) else []
-        revs.append((i, args))
+        has_groups = any(p[0] == "grp" for p in nd[1])
+        # several calls in a row for the same rule; half of the time with equal-but-differently-printed arguments
+        confusable = has_groups and draw(st.booleans())
+        classes = [draw(st.permutations(draw(st.sampled_from(EQUIV)))) for p in nd[1] if p[0] == "grp"]
+        twins = confusable and draw(st.booleans())
+        for k in range(draw(st.sampled_from([2, 2, 3]) if twins else st.sampled_from([1, 2, 2, 3])) if has_groups else 1):
+            if confusable:
+                grp = [p for p in nd[1] if p[0] == "grp"]
+                args = [classes[g][k % len(classes[g])] if (twins and p[1] in ("seg", "any")) else draw(conf_arg_s(p[1]))
+                        for g, p in enumerate(grp)]
+            else:
+                args = [draw(arg_s("seg0" if (p[1] == "any" and n_any >= 2) else p[1])) for p in nd[1] if p[0] == "grp"]
+            args += [7] if any(p[0] == "optnum" for p in nd[1]) else []
+            revs.append((i, args))
+        if draw(st.sampled_from([True, False, False])):
+            break
     case["reverse"] = revs
     return case
 
@@ -613,7 +655,7 @@ def has_dollar_tail(case):
 
 
 def representable(key, a):
-    s = str(a)
+    s = text_of(a)
     if key == "seg":
         return len(s) > 0 and "/" not in s
     if key == "num":
@@ -714,6 +756,7 @@ def run_case(ctx, case):
             ctx.fail("C31.first_match", detail, sig=sig)
 
     # ---- reverse clause
+    seen_reverse = {}
     for idx, args in case["reverse"]:
         nd = leaves[idx][0]
         pieces, optslash = nd[1], nd[2]
@@ -743,7 +786,7 @@ def run_case(ctx, case):
         if not rev_ok:
             labels.add("reverse_nonliteral_either")
             continue
-        ambiguous = keys.count("any") >= 2 and any("/" in str(a) for a in args)
+        ambiguous = keys.count("any") >= 2 and any("/" in text_of(a) for a in args)
         if len(keys) != len(args) or ambiguous or not all(representable(k, a) for k, a in zip(keys, args)):
             labels.add("reverse_unrepresentable_skipped")
             continue
@@ -757,16 +800,28 @@ def run_case(ctx, case):
         if any("%" in pc[1] for pc in pieces if pc[0] == "lit"):
             labels.add("reverse_with_percent_literal")
             nontrivial = True
-        if any(any(ord(c) > 127 for c in str(a)) for a in args):
+        if any(any(ord(c) > 127 for c in text_of(a)) for a in args):
             labels.add("reverse_non_ascii")
             nontrivial = True
-        if any("/" in str(a) for a in args):
+        if any("/" in text_of(a) for a in args):
             labels.add("reverse_slash_arg")
         detail["reversed"] = p
         if not isinstance(p, str):
             ctx.fail("C31.reverse_type", detail, sig=sig)
             continue
-        want = [str(a) for a in args]
+        want = [text_of(a) for a in args]
+        for a in args:
+            if isinstance(a, bool):
+                labels.add("reverse_arg_bool")
+            elif isinstance(a, float):
+                labels.add("reverse_arg_float")
+            elif isinstance(a, bytes):
+                labels.add("reverse_arg_bytes")
+        for pargs in seen_reverse.get(idx, []):
+            if len(pargs) == len(args) and list(pargs) == list(args) and [text_of(x) for x in pargs] != want:
+                labels.add("reverse_equal_args_different_text")
+                nontrivial = True
+        seen_reverse.setdefault(idx, []).append(list(args))
         rpath = p.partition("?")[0]
         m = re.fullmatch(pat, rpath)
         got = None
@@ -809,7 +864,8 @@ PARTS = {"main": run_case}
 REQUIRED = ["overlap_order", "nested_router", "host_rule", "reverse_with_percent_literal", "reverse_non_ascii",
             "reverse_routed_back", "escaped_capture", "add_handlers", "default_host", "top_rulerouter", "callable_target",
             "compiled_unanchored_rule", "compiled_anchored_rule", "reverse_compiled_pattern", "reverse_compiled_escaped_dollar_tail",
-            "router_hook_new_rule", "router_hook_in_place", "router_hook_wrap_target", "router_hook_gtd", "reverse_hook_router"]
+            "router_hook_new_rule", "router_hook_in_place", "router_hook_wrap_target", "router_hook_gtd", "reverse_hook_router",
+            "reverse_arg_bool", "reverse_arg_float", "reverse_arg_bytes", "reverse_equal_args_different_text"]
 
 
 def main(ctx):
